@@ -8,6 +8,7 @@ import QuiverModel.Lemmas.Packaging.Canon
 import QuiverModel.Lemmas.Packaging.Mark
 import QuiverModel.Lemmas.Packaging.Reach
 import QuiverModel.Core.Packaging.Merge
+import QuiverModel.Lemmas.Packaging.MergeImport
 /-
 C10 — packaging steps preserve behaviour (property theorems).
 
@@ -796,5 +797,26 @@ theorem merge_fast_path_breaks_renaming :
         (o.ren.type.get 1, o.prog.types.toList, o.ren.type.all (typeOK o.ren exSrc o.prog)))) =
       some (some 3, [.int, .union [0], .bin, .union [2]], true) := by
   decide
+
+/-- **`merge_isRenaming`, part (a): memo-consistency of the deep import under the final remap tables.** For
+    every environment, every incoming program and every entry on which `merge_bytecode` succeeds: every source
+    type id and tuple id is mapped, and its image in the merged program is the source entry renamed through
+    the FINAL `type_remap` / `tuple_remap` — the `types` and `tuples` clauses of `IsStructRenaming`
+    (`MergeIsRenamingStatement`). Hypothesis `hk`: no id is bound twice in the final memo tables (decided per
+    instance by the driver, `keys-distinct`; a re-binding would mean that an id was imported a second time while
+    its own children were being imported, i.e. a reference cycle not expressed by a `Cycle` leaf).
+    `merge_fast_path_breaks_renaming` shows that the seeded fast path violates exactly this. -/
+theorem merge_isRenaming_types_tuples {env src : Prog} {e : Nat} {out : MergeOut}
+    (h : mergeBytecode env src e = some out)
+    (hk : (out.ren.type.map (·.1)).Nodup ∧ (out.ren.tuple.map (·.1)).Nodup) :
+    (∀ t t', out.ren.type.get t = some t' →
+      ∃ τ τ', src.types[t]? = some τ ∧ out.prog.types[t']? = some τ' ∧ renameTy out.ren τ = some τ') ∧
+    (∀ t t', out.ren.tuple.get t = some t' →
+      ∃ T T', src.tuples[t]? = some T ∧ out.prog.tuples[t']? = some T' ∧ T'.name = T.name ∧
+        T'.fields.map (·.1) = T.fields.map (·.1) ∧
+        mapOpt (fun (p : Option String × Nat) => out.ren.type.get p.2) T.fields = some (T'.fields.map (·.2))) ∧
+    (∀ t, t < src.types.size → ∃ t', out.ren.type.get t = some t') ∧
+    (∀ u, u < src.tuples.size → ∃ u', out.ren.tuple.get u = some u') :=
+  merge_types_tuples h hk
 
 end C10
